@@ -7,6 +7,7 @@ boot state; hybrid parameters; number of PVD copies; relocation directory name.
 The model never looks at pycdlib.  `resolve(op)` turns a symbolic op into a concrete call
 description plus an `effect` closure that applies the documented meaning to the model.
 """
+import io
 import hashlib
 
 from vf import names
@@ -1050,6 +1051,147 @@ class BadCatalogue:
             ('add_symlink/dup-udf-after-rr+continuation', 'add_symlink', True, self.long_rr(self.sym_dup('udf'))),
         ]
 
+    def rows_more(self):
+        """Rows selected through `wy` (added after the fourth sensitivity round; a selector of their own so that older
+        replay files keep their meaning): a taken Rock Ridge name under a fresh ISO9660 name, paths given as empty
+        strings, the Joliet-only directory calls, clear_hidden, a second open, an unrepresentable UDF symlink target."""
+        rows = [
+            ('add_fp/dup-rr-name', 'add_fp', True, self.add_dup_rr('add_fp')),
+            ('add_directory/dup-rr-name', 'add_directory', True, self.add_dup_rr('add_directory')),
+            ('add_symlink/dup-rr-name', 'add_symlink', True, self.add_dup_rr('add_symlink')),
+            ('add_hard_link/dup-rr-name', 'add_hard_link', True, self.add_dup_rr('add_hard_link')),
+            ('add_eltorito/dup-rr-catalog-name', 'add_eltorito', True, self.add_dup_rr('add_eltorito')),
+            ('add_symlink/udf-target-component-too-long-after-rr', 'add_symlink', True, self.sym_long_udf_target),
+            ('add_joliet_directory/dup', 'add_joliet_directory', False, self.joldir('dup')),
+            ('add_joliet_directory/missing-parent', 'add_joliet_directory', False, self.joldir('missing-parent')),
+            ('add_joliet_directory/non-joliet', 'add_joliet_directory', False, self.joldir('non-joliet')),
+            ('rm_joliet_directory/missing', 'rm_joliet_directory', False, self.joldir('rm-missing')),
+            ('rm_joliet_directory/not-empty', 'rm_joliet_directory', False, self.joldir('rm-not-empty')),
+            ('rm_joliet_directory/is-a-file', 'rm_joliet_directory', False, self.joldir('rm-file')),
+            ('clear_hidden/missing', 'clear_hidden', False, lambda op: ('clear_hidden', {'iso_path': '/NOSUCH.;1'})),
+            ('clear_hidden/two-paths', 'clear_hidden', False, lambda op: ('clear_hidden', self.hide_two(op)[1])),
+            ('open_fp/already-initialized', 'open_fp', False, lambda op: ('open_fp', {'fp': io.BytesIO(b'\0' * 40960)})),
+            ('rm_hard_link/no-path', 'rm_hard_link', False, lambda op: ('rm_hard_link', {})),
+            ('add_fp/no-path', 'add_fp', False, lambda op: ('add_fp', dict(self.content_args(op)))),
+            ('add_directory/no-path', 'add_directory', False, lambda op: ('add_directory', {})),
+        ]
+        for meth in ('add_fp', 'add_directory', 'add_symlink', 'add_eltorito'):
+            for ns in ('iso', 'jol', 'udf'):
+                rows.append(('%s/empty-%s-path' % (meth, ns), meth, ns != 'iso', self.empty_path(meth, ns)))
+        return rows
+
+    def _root_rr_entry(self, op):
+        m = self.m
+        if not m.rr:
+            raise Skip('needs Rock Ridge')
+        c = sorted(p for p, e in m.t['iso'].items() if p != '/' and parent_of(p) == '/' and e.get('rr'))
+        if not c:
+            raise Skip('no Rock Ridge entry in the root')
+        return m.t['iso'][c[op.get('i', 0) % len(c)]]['rr']
+
+    def add_dup_rr(self, meth):
+        def b(op):
+            m = self.m
+            taken = self._root_rr_entry(op)
+            nm, paths = self.fresh(op, meth == 'add_directory')
+            if meth in ('add_fp', 'add_directory'):
+                kw = {_k(ns): p for ns, p in paths.items()}
+                kw['rr_name'] = taken
+                if meth == 'add_fp':
+                    kw.update(self.content_args(op))
+            elif meth == 'add_symlink':
+                kw = {'symlink_path': paths['iso'], 'rr_symlink_name': taken, 'rr_path': 'target'}
+                if m.has['jol']:
+                    kw['joliet_path'] = paths['jol']
+                if m.has['udf']:
+                    kw.update(udf_symlink_path=paths['udf'], udf_target='target')
+            elif meth == 'add_hard_link':
+                kw = {'iso_old_path': self.existing('iso', ('file',), op), 'iso_new_path': paths['iso'], 'rr_name': taken}
+            else:
+                if m.boot is not None:
+                    raise Skip('catalog exists')
+                kw = {'bootfile_path': self._bootfile(op), 'bootcatfile': paths['iso'], 'rr_bootcatname': taken}
+                if m.has['jol']:
+                    kw['joliet_bootcatfile'] = paths['jol']
+                if m.has['udf']:
+                    kw['udf_bootcatfile'] = paths['udf']
+            return meth, kw
+        return b
+
+    def sym_long_udf_target(self, op):
+        m = self.m
+        if not m.has['udf']:
+            raise Skip('no udf')
+        nm, paths = self.fresh(op)
+        kw = {'udf_symlink_path': paths['udf'], 'udf_target': 'ok/' + 'x' * (255 + op.get('i', 0) % 50)}
+        if m.rr:
+            kw.update(symlink_path=paths['iso'], rr_symlink_name=nm['rr'], rr_path='target')
+        else:
+            kw.update(symlink_path=paths['iso'])
+        return 'add_symlink', kw
+
+    def joldir(self, what):
+        def b(op):
+            m = self.m
+            if what == 'non-joliet':
+                if m.has['jol']:
+                    raise Skip('joliet image')
+                return 'add_joliet_directory', {'joliet_path': '/foreign%d' % op['n']}
+            if not m.has['jol']:
+                raise Skip('no joliet')
+            if what == 'dup':
+                return 'add_joliet_directory', {'joliet_path': self.existing('jol', ('dir', 'file'), op)}
+            if what == 'missing-parent':
+                return 'add_joliet_directory', {'joliet_path': '/NOSUCHDIR/x%d' % op['n']}
+            if what == 'rm-missing':
+                return 'rm_joliet_directory', {'joliet_path': '/NOSUCH%d' % op['n']}
+            if what == 'rm-file':
+                return 'rm_joliet_directory', {'joliet_path': self.existing('jol', ('file',), op)}
+            c = sorted(p for p, e in m.t['jol'].items() if p != '/' and e['type'] == 'dir' and not m.is_empty('jol', p))
+            if not c:
+                raise Skip('no non-empty joliet dir')
+            return 'rm_joliet_directory', {'joliet_path': c[op.get('i', 0) % len(c)]}
+        return b
+
+    def empty_path(self, meth, ns):
+        def b(op):
+            m = self.m
+            isdir = meth == 'add_directory'
+            nm, paths = self.fresh(op, isdir)
+            if meth in ('add_fp', 'add_directory'):
+                kw = {_k(n2): p for n2, p in paths.items()}
+                if m.rr:
+                    kw['rr_name'] = nm['rr']
+                kw[_k(ns)] = ''
+                if meth == 'add_fp':
+                    kw.update(self.content_args(op))
+            elif meth == 'add_symlink':
+                if not (m.rr or m.has['udf']):
+                    raise Skip('no symlinks')
+                kw = {'symlink_path': paths['iso']}
+                if m.rr:
+                    kw.update(rr_symlink_name=nm['rr'], rr_path='target')
+                    if m.has['jol']:
+                        kw['joliet_path'] = paths['jol']
+                if m.has['udf']:
+                    kw.update(udf_symlink_path=paths['udf'], udf_target='target')
+                kw[{'iso': 'symlink_path', 'jol': 'joliet_path', 'udf': 'udf_symlink_path'}[ns]] = ''
+                if ns == 'udf':
+                    kw['udf_target'] = 'target'
+            else:
+                if m.boot is not None:
+                    raise Skip('catalog exists')
+                kw = {'bootfile_path': self._bootfile(op), 'bootcatfile': paths['iso']}
+                if m.rr:
+                    kw['rr_bootcatname'] = nm['rr']
+                if m.has['jol']:
+                    kw['joliet_bootcatfile'] = paths['jol']
+                if m.has['udf']:
+                    kw['udf_bootcatfile'] = paths['udf']
+                kw[{'iso': 'bootcatfile', 'jol': 'joliet_bootcatfile', 'udf': 'udf_bootcatfile'}[ns]] = ''
+            return meth, kw
+        return b
+
     def long_rr(self, builder):
         def b(op):
             if not self.m.rr:
@@ -1480,7 +1622,10 @@ class BadCatalogue:
 def _op_bad(self, op):
     cat = BadCatalogue(self)
     rows = cat.rows()
-    if op.get('wx') is not None:
+    if op.get('wy') is not None:
+        extra = cat.rows_more()
+        name, meth, staged, builder = extra[op['wy'] % len(extra)]
+    elif op.get('wx') is not None:
         extra = cat.rows_late()
         name, meth, staged, builder = extra[op['wx'] % len(extra)]
     else:
@@ -1492,4 +1637,4 @@ def _op_bad(self, op):
 
 
 Model.op_bad = _op_bad
-N_BAD_ROWS = len(BadCatalogue(Model({'level': 1})).rows()) + len(BadCatalogue(Model({'level': 1})).rows_late())
+N_BAD_ROWS = len(BadCatalogue(Model({'level': 1})).rows()) + len(BadCatalogue(Model({'level': 1})).rows_late()) + len(BadCatalogue(Model({'level': 1})).rows_more())
